@@ -22,6 +22,8 @@ import PhQVerif.Generated.M_CompressibleNewtonianFluid
 import PhQVerif.Generated.M_IncompressibleNewtonianFluid
 import PhQVerif.Generated.Obl_SameFormula
 import PhQVerif.Generated.Obl_ModelOverloads
+import PhQVerif.Generated.Obl_NarrowM
+import PhQVerif.Generated.All
 
 namespace PhQVerif.Props.C13
 open PhQVerif Generated
@@ -86,6 +88,19 @@ theorem compressible_stress_linear (μ b c : ℝ) (D E : List ℝ) (hD : D.lengt
     simp [Entry.outsR, Entry.numOuts, f64.«model::CompressibleNewtonianFluid::Stress(StrainRate)[A=64,direct]»,
       Expr.evalR, BinOp.evalR, dyadicR, envOf]
     refine ⟨?_, ?_, ?_, ?_, ?_, ?_⟩ <;> ring
+
+/-- **C13 (every overload in its own precision).** No operation of any constructor, accessor or of any of
+the three numeric-type overloads of the model functions — on models of all three numeric types, called
+directly and through the abstract interface — is carried out with fewer significand bits than the lower
+of the model's and the argument's numeric type. Together with `overloads_same_formula` (same formula over
+the reals) this is what "the same, to the precision of each type" means; a `static_cast<float>` left in
+the `double` overload is invisible to the formula but not to this theorem. -/
+theorem overloads_keep_precision :
+    ∀ e ∈ modelEntries, ∀ ex ∈ e.tree.exprs, e.needP ≤ ex.minP := by
+  intro e he ex hex
+  have h : Chk.NoNarrowing e = true := List.all_eq_true.mp Obl.NarrowM e he
+  simp only [Chk.NoNarrowing, checkNoNarrowing, List.all_eq_true, decide_eq_true_eq] at h
+  exact h ex hex
 
 /-- The strain-rate map is linear in the stress. -/
 theorem compressible_strain_rate_linear (μ b c : ℝ) (S T : List ℝ) (hS : S.length = 6) (hT : T.length = 6) :
